@@ -31,13 +31,15 @@ Proof.
   assert (N : forall sk d s', s_pool s' = s_pool s -> nested_ok (op_cx o sk d) s').
   { intros sk d s' P. unfold nested_ok. destruct NO as [NP|SD]; [left; rewrite P; exact NP|right]. cbn. rewrite SD. reflexivity. }
   unfold run_body. destruct (o_kind o) eqn:KD; [| | | | | | | exfalso; eapply NB; reflexivity].
-  - eapply pipeline_inner; [apply create_bracketed | exact ST | apply N; reflexivity].
+  - destruct (by_value_struct o); [apply add_err_mid|].
+    eapply pipeline_inner; [apply create_bracketed | exact ST | apply N; reflexivity].
   - destruct (sh_cont (o_shape o)); try (eapply pipeline_inner; [apply create_bracketed | exact ST | apply N; reflexivity]).
     unfold run_save_struct. destruct (o_recs o) as [|r rs]; [apply mid_refl|].
     destruct (m_id r =? 0); [eapply pipeline_inner; [apply create_bracketed | exact ST | apply N; reflexivity]|].
     pose proof (pipeline_inner must (op_cx o (o_skip o) DSelf) (o_assocs o) no_q update_pipeline _ s update_bracketed ST (N _ _ s eq_refl)) as A.
     match goal with |- context [if ?b then _ else _] => destruct b end; [|exact A].
     eapply mid_trans; [exact A|]. destruct A as [(P & _ & St & _) _].
+    destruct (by_value_struct o); [apply add_err_mid|].
     eapply pipeline_inner; [apply create_bracketed | congruence | apply N; exact P].
   - eapply pipeline_inner; [apply update_bracketed | exact ST | apply N; reflexivity].
   - eapply pipeline_inner; [apply update_bracketed | exact ST | apply N; reflexivity].
@@ -81,7 +83,10 @@ Proof.
   { intros sk d p body BR.
     destruct (pipeline_default must (op_cx o sk d) (o_assocs o) no_q p body (init_state o) BR I ST E P (SD sk d)) as (I' & _ & _ & T').
     split; [exact I' | rewrite <- TB; exact T']. }
-  unfold is_query in Q. unfold run_body. destruct (o_kind o) eqn:KD; try discriminate.
+  assert (BV : by_value_struct o = false).
+  { destruct OK as (_ & OK0). unfold is_query in Q.
+    destruct (o_kind o); try discriminate; try contradiction; destruct OK0 as (G0 & _); exact (goodk_not_by_value o _ G0). }
+  unfold is_query in Q. unfold run_body, run_save_struct. rewrite ?BV. destruct (o_kind o) eqn:KD; try discriminate.
   - eapply D. apply create_bracketed.
   - destruct (sh_cont (o_shape o)); try (eapply D; apply create_bracketed).
     unfold run_save_struct. destruct (o_recs o) as [|r rs] eqn:R; [split; [exact I | intro H; exact TB]|].
